@@ -51,9 +51,16 @@ LoadOK(r, a, j) ==      \* the loaded command is representable and its first tic
   /\ Fits(r + Adjust(r, a, j), a)
   /\ Fits(a, j)
 
+\* (accel, jerk) pairs: the product of the input sets; with NearClear also jerk = -accel (tick 2 zero when tick 1 is) and, for every
+\* non-zero jerk, the accelerations that put the turning point 1/2 - a/j of the rate parabola strictly inside a short move
+VertexTicks == {2, 3, 5, 8}
+AJPairs ==
+  {<<a, j>> : a \in Accels, j \in Jerks}
+  \cup (IF NearClear /\ Jerks # {0} THEN {<<a, 0 - a>> : a \in Accels}
+                                        \cup UNION {{<<(0 - j) * k, j>>, <<(0 - j) * k + TruncDiv(j, 2), j>>} : j \in Jerks \ {0}, k \in VertexTicks}
+        ELSE {})
 Init ==
-  \E a \in Accels :
-  \E j \in Jerks \cup (IF NearClear /\ Jerks # {0} THEN {0 - a} ELSE {}) :
+  \E aj \in AJPairs : LET a == aj[1] j == aj[2] IN
   \E r \in Rates \cup (IF NearClear THEN {(0 - a) - Adjust(0, a, j) + d : d \in {-1, 0, 1}} ELSE {}) :
   \E c \in Accs :
     /\ InRange(r) /\ InRange(a) /\ InRange(j) /\ LoadOK(r, a, j)
